@@ -145,6 +145,8 @@ class Check(ParCheck):
             others = [o for o in flat if o not in ('ret:7', 'ret:9')]
             if any(not o.startswith('err:CannotReturnValueMoreThanOnce') for o in others) or len(others) != len(flat) - 1:
                 return f"a single-use value must go to exactly one request and every other request must panic (CannotReturnValueMoreThanOnce): {flat}"
+        if name.startswith('oncechain') and sorted(flat) != sorted(['ret:7'] + ['ret:8'] * (len(flat) - 1)):
+            return f"a single-use value at the head of a response chain (returns(v).once().then()..) must go to exactly one request, the tail to the others: {flat}"
         if name.startswith('multin1') and any(o != 'ret:7' for o in flat):
             return f"a value configured for repeated use (returns(v).n_times(1)) was not cloned for every caller: {flat}"
         if name.startswith('multial') and any(o != 'ret:7' for o in flat):
